@@ -106,13 +106,33 @@ double det_ref(int b, int e, int g) {
 }
 void scen_det(hx::Desc& d) {
     int n = draw_n(), g = (int)sim::draw_range(1, 8, "grain"), part = (int)sim::draw(2, "part");   // simple or static
-    d.add(hx::fmt("parallel_deterministic_reduce n=%d grain=%d %s", n, g, part ? "static" : "simple")); d.publish();
+    // every overload family: functional / Body form, with and without an explicit task_group_context, default partitioner
+    int form = (int)sim::draw(2, "det_form"), with_ctx = (int)sim::draw(2, "det_ctx"), dflt = !part && sim::draw(3, "det_default_part") == 0;
+    static const int dptsv[] = {1, 1, 4, 12};
+    int dpts = sim::draw_of(dptsv, "det_points");    // longer chunks: a right chunk may start before or after its left sibling has finished
+    d.add(hx::fmt("parallel_deterministic_reduce n=%d grain=%d %s%s form=%s ctx=%d points=%d", n, g, part ? "static" : "simple", dflt ? "(default)" : "", form ? "Body" : "functional", with_ctx, dpts)); d.publish();
     tbb::blocked_range<int> range(0, n, (size_t)g);
-    auto body = [&](const tbb::blocked_range<int>& rr, double a) { for (int i = rr.begin(); i < rr.end(); ++i) a = a * 1.0000001 + (double)i * 0.1; sim::upoint(); return a; };
+    auto body = [&](const tbb::blocked_range<int>& rr, double a) { for (int i = rr.begin(); i < rr.end(); ++i) a = a * 1.0000001 + (double)i * 0.1; for (int k = 0; k < dpts; ++k) sim::upoint(); return a; };
     auto join = [](double l, double r) { return l * 1.0000003 + r; };
-    auto once = [&] {
-        return part ? tbb::parallel_deterministic_reduce(range, 0.0, body, join, tbb::static_partitioner())
-                    : tbb::parallel_deterministic_reduce(range, 0.0, body, join, tbb::simple_partitioner());
+    struct DBody {
+        double a = 0.0; int pts;
+        explicit DBody(int p) : pts(p) {}
+        DBody(DBody& o, tbb::split) : pts(o.pts) {}
+        void operator()(const tbb::blocked_range<int>& rr) { for (int i = rr.begin(); i < rr.end(); ++i) a = a * 1.0000001 + (double)i * 0.1; for (int k = 0; k < pts; ++k) sim::upoint(); }
+        void join(DBody& r) { a = a * 1.0000003 + r.a; }
+    };
+    auto once = [&]() -> double {
+        tbb::task_group_context ctx;
+        if (form) {
+            DBody b(dpts);
+            if (part) { if (with_ctx) tbb::parallel_deterministic_reduce(range, b, tbb::static_partitioner(), ctx); else tbb::parallel_deterministic_reduce(range, b, tbb::static_partitioner()); }
+            else if (dflt) { if (with_ctx) tbb::parallel_deterministic_reduce(range, b, ctx); else tbb::parallel_deterministic_reduce(range, b); }
+            else { if (with_ctx) tbb::parallel_deterministic_reduce(range, b, tbb::simple_partitioner(), ctx); else tbb::parallel_deterministic_reduce(range, b, tbb::simple_partitioner()); }
+            return b.a;
+        }
+        if (part) return with_ctx ? tbb::parallel_deterministic_reduce(range, 0.0, body, join, tbb::static_partitioner(), ctx) : tbb::parallel_deterministic_reduce(range, 0.0, body, join, tbb::static_partitioner());
+        if (dflt) return with_ctx ? tbb::parallel_deterministic_reduce(range, 0.0, body, join, ctx) : tbb::parallel_deterministic_reduce(range, 0.0, body, join);
+        return with_ctx ? tbb::parallel_deterministic_reduce(range, 0.0, body, join, tbb::simple_partitioner(), ctx) : tbb::parallel_deterministic_reduce(range, 0.0, body, join, tbb::simple_partitioner());
     };
     // same call three times under whatever schedules the simulator picks: results must be bit-identical
     double r1 = once(), r2 = once(), r3 = once();
